@@ -152,6 +152,9 @@ func genericFor(id string, p *Prog, r *Report) {
 	if cs, ok := counterScopes[id]; ok {
 		counterProvenanceRule(p, r, cs.rule, cs.mods, cs.floor)
 	}
+	if fs, ok := freshScopes[id]; ok {
+		freshIDRule(p, r, fs.rule, fs.mods, fs.floor)
+	}
 	if rr, ok := replScopes[id]; ok {
 		replacedFieldRule(p, r, rr.rule, rr.mods, rr.floor)
 	}
@@ -352,6 +355,147 @@ func counterProvenanceRule(p *Prog, r *Report, rule string, mods map[string]bool
 			}
 		}
 	}
+}
+
+// freshIDRule: a record stored under an id taken from a counter (Get<Counter>() + 1) is
+// stored only on success paths that also store the counter back (Set<Counter>): otherwise the
+// next record is assigned the same id and overwrites this one.
+func freshIDRule(p *Prog, r *Report, rule string, mods map[string]bool, floor int) {
+	r.Rule(rule, "a record stored under an id taken from a counter advances that counter on the same success path", floor)
+	ops := p.operationalFns()
+	var fns []*ssa.Function
+	for f := range ops {
+		if mods[moduleOf(f)] && !p.isAuxFn(f) && len(f.Blocks) > 0 {
+			fns = append(fns, f)
+		}
+	}
+	sort.Slice(fns, func(i, j int) bool { return fname(fns[i]) < fname(fns[j]) })
+	for _, fn := range fns {
+		// counter reads of this function
+		type ctr struct {
+			get    *ssa.Call
+			setter *ssa.Function
+		}
+		var ctrs []ctr
+		for _, c := range calls(fn) {
+			call, ok := c.(*ssa.Call)
+			if !ok {
+				continue
+			}
+			ts := p.Callees(c)
+			if len(ts) == 0 || !isComdexFn(ts[0]) || ts[0].Signature.Recv() == nil || !strings.HasPrefix(ts[0].Name(), "Get") {
+				continue
+			}
+			g := ts[0]
+			sig := g.Signature
+			if sig.Params().Len() != 1 || sig.Results().Len() != 1 || !isUint64(sig.Results().At(0).Type()) {
+				continue
+			}
+			set := p.byName[short(fnPkgPath(g))+".Keeper.Set"+strings.TrimPrefix(g.Name(), "Get")]
+			if set == nil || set.Signature.Params().Len() != 2 {
+				continue
+			}
+			ctrs = append(ctrs, ctr{call, set})
+		}
+		done := map[*ssa.Function]bool{}
+		for _, ct := range ctrs {
+			if done[ct.setter] {
+				continue
+			}
+			// records filled with the counter value: rec.<own id> = Get<Counter>() (+1)
+			fresh := map[ssa.Value]bool{}
+			for _, b := range fn.Blocks {
+				for _, in := range b.Instrs {
+					st, ok := in.(*ssa.Store)
+					if !ok || !isUint64(st.Val.Type()) {
+						continue
+					}
+					fa, ok := st.Addr.(*ssa.FieldAddr)
+					if !ok {
+						continue
+					}
+					nt := namedOf(fa.X.Type())
+					if nt == nil || fieldName(fa.X.Type(), fa.Field) != ownIDField(nt) {
+						continue
+					}
+					for _, o := range p.DeepOrigins(st.Val) {
+						if o.Kind == "call" && o.Call == ssa.CallInstruction(ct.get) {
+							base, _ := addrBase(st.Addr)
+							fresh[base] = true
+						}
+					}
+				}
+			}
+			var aBlocks []*ssa.BasicBlock
+			var first ssa.CallInstruction
+			for _, c := range calls(fn) {
+				ts := p.Callees(c)
+				if len(ts) == 0 || !isComdexFn(ts[0]) || !strings.HasPrefix(ts[0].Name(), "Set") || ts[0] == ct.setter {
+					continue
+				}
+				for _, a := range callArgs(c) {
+					fed := false
+					if u, ok := a.(*ssa.UnOp); ok && fresh[u.X] {
+						fed = true
+					}
+					for _, o := range p.Origins(a) {
+						if len(o.Path) == 0 && o.Val != nil && fresh[o.Val] {
+							fed = true
+						}
+					}
+					if fed {
+						aBlocks = append(aBlocks, c.Block())
+						if first == nil {
+							first = c
+						}
+					}
+				}
+			}
+			if len(aBlocks) == 0 {
+				continue
+			}
+			done[ct.setter] = true
+			r.Instance(rule)
+			r.FuncsSeen[fname(fn)] = true
+			construct := fmt.Sprintf("%s fresh id from %s", fname(fn), calleeShortName(ct.get.Common()))
+			blocked := map[*ssa.BasicBlock]bool{}
+			for _, vs := range p.virtualSites(fn, nil) {
+				if vs.call != nil && p.callIsFn(vs.call, ct.setter) && vs.must {
+					blocked[vs.anchor.Block()] = true
+				}
+			}
+			bad := false
+			succ := p.successTargets(nil, fn, 0)
+			seenE, _ := reach(fn, nil, nil, blocked)
+			for _, ab := range aBlocks {
+				if blocked[ab] || !seenE[ab] {
+					continue
+				}
+				seenA, _ := reach(fn, ab, nil, blocked)
+				for _, t := range succ {
+					if seenA[t] {
+						bad = true
+					}
+				}
+			}
+			if bad {
+				r.Fail(rule, construct, fmt.Sprintf("a record is stored under the id read from the counter and the function can succeed without %s: the next record gets the same id and overwrites this one (with its owner)", ct.setter.Name()), p.instrPos(first), nil)
+			} else {
+				r.OK(rule, construct, "every success path through the store also calls "+ct.setter.Name(), p.instrPos(first))
+			}
+		}
+	}
+}
+
+var freshScopes = map[string]struct {
+	rule  string
+	mods  map[string]bool
+	floor int
+}{
+	"C01": {"R01.13", modset("vault", "auction", "auctionsV2", "liquidation", "liquidationsV2", "esm"), 2},
+	"C08": {"R08.11", modset("lend"), 2},
+	"C12": {"R12.6", modset("lend", "vault", "locker", "liquidity"), 5},
+	"C13": {"R13.11", modset("locker"), 1},
 }
 
 var counterScopes = map[string]struct {
